@@ -19,8 +19,10 @@ RULE = (
     " whole, P answer it in 3 pieces, H answer only headers+half body, E send EVENT, F EVENT+response in one write,"
     " G response+EVENT in one write, C cancel oldest live caller, T advance virtual time 31 s, X peer closes, U"
     " unsolicited response while idle, Z request sent into a connection the peer then resets (no EOF, connection_lost"
-    " with an error)}: ALL sequences of the bounded depth that start with R, plus seeded random"
-    " schedules of depth 8-30; alternately through HomeKitConnection.get and IpPairing.get_characteristics. After each"
+    " with an error), K cancel the oldest in-flight caller and deliver its response in the SAME loop iteration (cancel first)}: ALL sequences of the bounded depth that start with R, plus seeded random"
+    " schedules of depth 8-30; through HomeKitConnection.get (default concurrency limit 1, and 'pipelined': a connection"
+    " constructed with concurrency limit 3 so that several requests are in flight on one protocol) and"
+    " IpPairing.get_characteristics. After each"
     " action the loop is run to quiescence; at the end virtual time advances 30 s x (requests+1). Distinct by (schedule,"
     " api); non-trivial = the schedule contains at least one fault/interleaving action besides R/A."
 )
@@ -34,9 +36,9 @@ ASSUMPTIONS = [
 SHARDS = {"quick": 16, "thorough": 16}
 TIMEOUT = {"quick": 900, "thorough": 7200}
 MIN_CASES = {"quick": 5000, "thorough": 100000}
-REQUIRED_COUNTERS = ["requests_completed_with_own_response", "requests_failed_disconnected", "callers_cancelled", "events_delivered", "timeouts_fired", "stale_answers_dropped", "reconnects", "connections_abandoned", "peer_resets"]
+REQUIRED_COUNTERS = ["requests_completed_with_own_response", "requests_failed_disconnected", "callers_cancelled", "events_delivered", "timeouts_fired", "stale_answers_dropped", "reconnects", "connections_abandoned", "peer_resets", "cancel_races_response"]
 
-ALPHABET = "RAPHEFGCTXUZ"
+ALPHABET = "RAPHEFGCTXUZK"
 
 
 class Scenario:
@@ -141,6 +143,21 @@ class Scenario:
             # messages are never byte-interleaved: no event while a response is half-written on this connection
             if conn is not None and not any(r["conn"] is conn and r["answered"] == 1 for r in self.received):
                 conn.send(self.event_plain(conn))
+        elif a == "K":
+            # response for the oldest outstanding request is written; exactly when its bytes are about to be dispatched
+            # (reader callback queued behind us in this iteration) the caller is cancelled
+            r = self.oldest_unanswered()
+            if r is not None and r["conn"].is_open and r["answered"] == 0 and not self.reqs[r["id"]]["task"].done():
+                conn = r["conn"]
+                r["wire"] = conn.wire(self.response_plain(conn, r["id"]))
+                r["answered"] = 2
+                conn.transport.write(r["wire"])
+                await asyncio.sleep(0)
+                rq = self.reqs[r["id"]]
+                rq["cancelled"] = True
+                rq["task"].cancel()
+                must_abandon = [conn]
+                ctx.count("cancel_races_response")
         elif a == "C":
             for uid, rq in self.reqs.items():
                 if not rq["task"].done():
@@ -228,6 +245,9 @@ class Scenario:
         w.accessory.script_for = lambda host, attempt: simnet.ConnScript(responder=self.responder)
         replay = {"schedule": self.schedule, "api": self.api}
         asyncio.get_running_loop().captured.clear()
+        if self.api == "pipelined":
+            # a connection constructed with concurrency_limit=3 (the constructor parameter; the pairing uses the default 1)
+            w.connection._concurrency_limit = asyncio.Semaphore(3)
         try:
             await asyncio.wait_for(w.connection.ensure_connection(), 30)
             if self.api == "pairing":
@@ -310,7 +330,7 @@ class Scenario:
 
 
 def nontrivial(schedule: str) -> bool:
-    return any(ch in schedule for ch in "PHEFGCTXUZ")
+    return any(ch in schedule for ch in "PHEFGCTXUZK")
 
 
 async def run_one(ctx, schedule: str, api: str, key) -> None:
@@ -338,13 +358,13 @@ def run(ctx) -> None:
             if not ctx.mine(idx):
                 continue
             schedule = "R" + "".join(tail)
-            await run_one(ctx, schedule, "pairing" if idx % 5 == 0 else "connection", idx)
+            await run_one(ctx, schedule, ("pairing", "connection", "pipelined", "connection", "pipelined")[idx % 5], idx)
         ctx.exhaustive_parts[f"all schedules of depth {depth} starting with R"] = True
         rng = ctx.rng("C08.random")
         for k in range(ctx.pick(4000, 60000) // ctx.nshards):
             n = rng.randint(6, 30)
-            schedule = "R" + "".join(rng.choice("RRRAAPHEFGCTXUZ") for _ in range(n))
-            await run_one(ctx, schedule, rng.choice(["connection", "connection", "pairing"]), ("rand", ctx.shard, k))
+            schedule = "R" + "".join(rng.choice("RRRAAPHEFGCTXUZK") for _ in range(n))
+            await run_one(ctx, schedule, rng.choice(["connection", "pipelined", "pipelined", "pairing"]), ("rand", ctx.shard, k))
 
     vloop.run(main())
 
